@@ -49,10 +49,9 @@ package backup
 //@   assumed
 //@   modifies nothing
 //@ func (*Backup).ensureDefaults
-//@   assumed
 //@   requires b != nil
-//@   ensures b.Log != nil
-//@   modifies b.Log, b.Timeout, b.clock
+//@   ensures [C07.backup.defaults] b.Timeout != 0 && b.Log != nil && (old(b.Timeout) != 0 ==> b.Timeout == old(b.Timeout)) && (old(b.Log) != nil ==> b.Log == old(b.Log))
+//@   modifies allfields(Backup)
 //@ func checkDir
 //@   assumed
 //@   modifies nothing
